@@ -18,7 +18,7 @@ warnings.filterwarnings("ignore")
 THEOREMS = ["Yaw.C05.fold_perm_invariant", "Yaw.C05.nodup_consistent", "Yaw.C05.count_pairs_schedule_free",
             "Yaw.C05.load_patches_schedule_free", "Yaw.C05.hist_schedule_free",
             "Yaw.C05.arrival_indexed_rows_depend_on_order", "Yaw.C05.accumulation_by_id", "Yaw.C05.glue_pinned",
-            "Yaw.C05.assignFold_mem", "Yaw.C05.assignFold_none"]
+            "Yaw.C05.assignFold_mem", "Yaw.C05.assignFold_none", "Yaw.C05.weights_consistent", "Yaw.C05.pair_weights_flag"]
 RULE = ("cached catalogs (2..6 patches incl. patches with an empty redshift bin, data sparser than randoms, weights "
         "that are not exactly representable) x every "
         "parallel entry point (Catalog(cache), build_trees, autocorrelate, crosscorrelate, HistData.from_catalog) x "
